@@ -19,6 +19,8 @@ import GapicModel.Driver.C17
 import GapicModel.Driver.C18
 import GapicModel.Driver.C19
 import GapicModel.Driver.C20
+import GapicModel.Driver.Funcs
+import GapicModel.Driver.PyRt
 /-
 JSON-lines driver over the executable model (DESIGN §3.3).
   .lake/build/bin/driver < ops.jsonl > out.jsonl      (or: lake env lean --run GapicModel/Driver.lean)
@@ -31,7 +33,7 @@ open Lean GapicModel
 namespace GapicModel.Driver
 
 def allOps : List (String × (Json → Except String Json)) :=
-  [("regex", opRegex)] ++ opsC01 ++ opsC02 ++ opsC03 ++ opsC04 ++ opsC05 ++ opsC06 ++ opsC07 ++ opsC08 ++ opsC09 ++ opsC10 ++ opsC11 ++ opsC12 ++ opsC13 ++ opsC14 ++ opsC15 ++ opsC16 ++ opsC17 ++ opsC18 ++ opsC19 ++ opsC20
+  [("regex", opRegex)] ++ opsC01 ++ opsC02 ++ opsC03 ++ opsC04 ++ opsC05 ++ opsC06 ++ opsC07 ++ opsC08 ++ opsC09 ++ opsC10 ++ opsC11 ++ opsC12 ++ opsC13 ++ opsC14 ++ opsC15 ++ opsC16 ++ opsC17 ++ opsC18 ++ opsC19 ++ opsC20 ++ opsFuncs ++ opsPyRt
 
 def dispatch (j : Json) : Except String Json := do
   let op ← (← j.getObjVal? "op").getStr?
